@@ -101,7 +101,10 @@ static void parseSanitizer(const std::string &err, Json &res, bool thrownAssert)
         if (seen.count(sig)) return;
         seen.insert(sig);
         Json j = Json::obj();
-        j.set("prop", "C15"); j.set("clause", clause); j.set("sig", sig); j.set("detail", detail);
+        // the sanitizer prefixes its lines with the process id ("==12345=="): not part of the (replayable) result
+        std::string d = detail;
+        if (d.rfind("==", 0) == 0) { size_t e = d.find("==", 2); if (e != std::string::npos && e < 12) d = d.substr(e + 2); }
+        j.set("prop", "C15"); j.set("clause", clause); j.set("sig", sig); j.set("detail", d);
         j.set("session", -1); j.set("op", -1);
         v.push(j);
     };
@@ -149,7 +152,20 @@ static void parseSanitizer(const std::string &err, Json &res, bool thrownAssert)
                 pendingKind = "";
             }
         }
-        if (line.find("SIMALLOC:") != std::string::npos) add("memory", "simalloc:" + line.substr(line.find("SIMALLOC:") + 10, 24), line);
+        if (line.find("SIMALLOC:") != std::string::npos) {
+            // signature = kind of damage + the first /repo frame of the place that frees the damaged block (its owner)
+            std::string kind = "simalloc:" + line.substr(line.find("SIMALLOC:") + 10, 24), detail = line;
+            std::string cmd; std::streampos back = is.tellg(); std::string fl; int nf = 0;
+            while (std::getline(is, fl) && fl.rfind("SIMAFRAME ", 0) == 0) { if (nf++ < 24) cmd += " " + fl.substr(10); back = is.tellg(); }
+            is.clear(); is.seekg(back);
+            std::string loc;
+            if (!cmd.empty()) {
+                char exe[512]; ssize_t el = readlink("/proc/self/exe", exe, sizeof exe - 1); exe[el > 0 ? el : 0] = 0;
+                FILE *pp = popen((std::string("addr2line -e ") + exe + cmd).c_str(), "r");
+                if (pp) { char lb[1024]; while (fgets(lb, sizeof lb, pp)) { std::string l2 = repoFrame(lb); if (!l2.empty() && loc.empty()) loc = l2; } pclose(pp); }
+            }
+            add("memory", kind + (loc.empty() ? "" : "@freed-at:" + loc), detail);
+        }
     }
     if (pendingKind.rfind("ASan:", 0) == 0) add("memory", pendingKind + "@?", pendingDetail);
     res.set("violations", v);
